@@ -241,6 +241,8 @@ pub struct Net {
     pub dgram_rx: VecDeque<Bytes>,
     pub dgram_rx_waker: Option<Waker>,
     pub dgram_tx: Vec<Vec<u8>>,
+    /// what `send_datagram` answers (peer op `dq:<mode>`, added for C18); default: every datagram is accepted
+    pub dgram_send_mode: DgMode,
     /// test hook: called by `poll_accept_bidi` before it looks at the queue; `Some(e)` makes the
     /// call fail with `e` (used by the C05 engine to stop the driver inside the transport)
     pub accept_bidi_gate: Option<Box<dyn FnMut() -> Option<ConnectionErrorIncoming>>>,
@@ -702,6 +704,45 @@ impl quic::SendStreamUnframed<Bytes> for SimStream {
 
 // ---------------------------------------------------------------- datagrams (h3-datagram traits)
 
+/// The answers a QUIC transport may give to `send_datagram` (peer op `dq:<mode>`): `ok` accept everything,
+/// `na` NotAvailable (the peer does not take datagrams), `tl` TooLarge whatever the size, `max=<n>` TooLarge
+/// iff the encoded datagram is longer than `n` bytes (what a real transport does), `C<code>` / `T` / `I` /
+/// `U` ConnectionError(ApplicationClose / Timeout / InternalError / Undefined) - told to the datagram sender
+/// ONLY: the rest of the simulated transport goes on as before, so that the connection learns of it from
+/// h3-datagram or not at all.
+#[derive(Clone, Default)]
+pub enum DgMode {
+    #[default]
+    Ok,
+    NotAvailable,
+    TooLarge,
+    Max(usize),
+    Conn(ConnectionErrorIncoming),
+}
+
+pub fn parse_dg_mode(s: &str) -> Option<DgMode> {
+    Some(match s {
+        "ok" => DgMode::Ok,
+        "na" => DgMode::NotAvailable,
+        "tl" => DgMode::TooLarge,
+        "T" => DgMode::Conn(ConnectionErrorIncoming::Timeout),
+        "I" => DgMode::Conn(ConnectionErrorIncoming::InternalError("sim".into())),
+        "U" => {
+            let e: Box<dyn std::error::Error + Send + Sync> = "sim".into();
+            DgMode::Conn(ConnectionErrorIncoming::Undefined(std::sync::Arc::from(e)))
+        }
+        _ => {
+            if let Some(n) = s.strip_prefix("max=") {
+                DgMode::Max(n.parse().ok()?)
+            } else if let Some(c) = s.strip_prefix('C') {
+                DgMode::Conn(ConnectionErrorIncoming::ApplicationClose { error_code: c.parse().ok()? })
+            } else {
+                return None;
+            }
+        }
+    })
+}
+
 pub struct SimDgramSend {
     net: NetRef,
 }
@@ -717,7 +758,21 @@ impl h3_datagram::quic_traits::SendDatagram<Bytes> for SimDgramSend {
         if let Some(e) = conn_err(&self.net) {
             return Err(h3_datagram::quic_traits::SendDatagramErrorIncoming::ConnectionError(e));
         }
+        use h3_datagram::quic_traits::SendDatagramErrorIncoming as E;
+        let mode = self.net.borrow().dgram_send_mode.clone();
+        match &mode {
+            DgMode::NotAvailable => return Err(E::NotAvailable),
+            DgMode::TooLarge => return Err(E::TooLarge),
+            DgMode::Conn(e) => return Err(E::ConnectionError(e.clone())),
+            DgMode::Ok | DgMode::Max(_) => {}
+        }
         let mut buf: h3_datagram::datagram::EncodedDatagram<Bytes> = data.into();
+        // the size a transport compares with its maximum is `remaining()` of what it is handed
+        if let DgMode::Max(m) = mode {
+            if buf.remaining() > m {
+                return Err(E::TooLarge);
+            }
+        }
         // consume through chunk/advance, one chunk at a time (not copy_to_bytes)
         let mut out = Vec::new();
         while buf.has_remaining() {
